@@ -249,7 +249,7 @@ func c04History(t *testing.T, r *vRand, idx int) (string, map[string]interface{}
 	fuzzy := false
 	sawTrashed, sawUntrash, sawEmptied, sawKept := false, false, false, false
 	nops := 8 + r.Intn(33)
-	// directed prefix for F20 (Untrash over a fresh copy), 1 case in 12
+	// directed prefix (Untrash while a fresh copy is in place — finding F20, repaired in /repo fa470fa), 1 case in 12
 	var script []string
 	if r.Chance(1, 12) {
 		script = []string{"PUT:0", fmt.Sprintf("ADV:%d", ttlS+37), "DELETE:0", "PUT:0", "UNTRASH:0"}
